@@ -681,8 +681,8 @@ def translate_message(header, cls, inst):
     raise Untranslatable("%s::parse / clear: no instantiated body found" % cls)
 
 
-def translate_headers_valid():
-    """message_headers::valid() as an M_Hdr.hexp"""
+def translate_headers_valid(which="valid"):
+    """message_headers::valid() / fail() as an M_Hdr.hexp"""
     inst = "via::http::message_headers<100, 65534, 1024, 8, false>"
     with tempfile.TemporaryDirectory() as d:
         tu = os.path.join(d, "tu.cpp")
@@ -698,7 +698,7 @@ def translate_headers_valid():
     for dd in docs:
         for n in walk(dd):
             if n.get("kind") == "ClassTemplateSpecializationDecl" and n.get("name") == "message_headers":
-                ms = [m for m in kids(n) if m.get("kind") == "CXXMethodDecl" and m.get("name") == "valid" and any(c.get("kind") == "CompoundStmt" for c in kids(m))]
+                ms = [m for m in kids(n) if m.get("kind") == "CXXMethodDecl" and m.get("name") == which and any(c.get("kind") == "CompoundStmt" for c in kids(m))]
                 if len(ms) == 1:
                     rs = kids([c for c in kids(ms[0]) if c.get("kind") == "CompoundStmt"][0])
                     if len(rs) == 1 and rs[0].get("kind") == "ReturnStmt":
@@ -814,6 +814,10 @@ class CTr:
                 return "CHdrValid"
             if who == "hdr" and f == "is_last" and not args:
                 return "CHdrIsLast"
+            if who == "hdr" and f == "fail" and not args:
+                return "CHdrFail"
+            if who == "trailers" and f == "fail" and not args:
+                return "CTrailersFail"
             if who == "hdr" and is_parse:
                 return "CHdrParse"
             if who == "trailers" and is_parse:
@@ -917,6 +921,11 @@ def translate_chunk():
                         if out.get("clear", clr) != clr:
                             raise Untranslatable("rx_chunk::clear differs between the instantiations")
                         out["clear"] = clr
+                        fl = [m for m in kids(n) if m.get("kind") == "CXXMethodDecl" and m.get("name") == "fail" and any(c.get("kind") == "CompoundStmt" for c in kids(m))]
+                        rs = kids([c for c in kids(fl[0]) if c.get("kind") == "CompoundStmt"][0]) if len(fl) == 1 else []
+                        if len(rs) != 1 or rs[0].get("kind") != "ReturnStmt":
+                            raise Untranslatable("rx_chunk::fail is not a single return")
+                        out["fail"] = CTr().cexp(kids(rs[0])[0])
         if variant not in out:
             raise Untranslatable("rx_chunk::parse (%s): no instantiated body found" % variant)
     return out
@@ -1187,14 +1196,327 @@ def translate_request_queries(hq):
     return {name: qt.qexp(single_return(b, name)) for name, b in qb.items()}
 
 
+
+# ---- request_receiver::receive and clear -------------------------------------------------------------------------------
+RX_VALUES = {"INVALID": "VX_INVALID", "EXPECT_CONTINUE": "VX_EXPECT_CONTINUE", "INCOMPLETE": "VX_INCOMPLETE", "VALID": "VX_VALID", "CHUNK": "VX_CHUNK"}
+REQ_QUERIES = ("keep_alive", "missing_host_header", "expect_continue", "is_chunked", "is_head", "is_trace")
+R_FLAGS = ["response_code_", "continue_sent_", "is_head_"]
+
+
+class RTr:
+    def __init__(self, line_states):
+        self.line_states = line_states
+
+    def ref(self, n, name):
+        n = strip(n)
+        return n.get("kind") == "DeclRefExpr" and n.get("referencedDecl", {}).get("name") == name
+
+    def this_member(self, n):
+        n = strip(n)
+        if n.get("kind") == "MemberExpr" and kids(n) and strip(kids(n)[0]).get("kind") == "CXXThisExpr":
+            return n.get("name")
+        return None
+
+    def chain(self, n):
+        """a chain of member calls starting at a data member of this: request_.headers().find(X).empty() ->
+        ("request_", [("headers", []), ("find", [X]), ("empty", [])]); a call on this itself -> ("this", [...])"""
+        n = strip(n)
+        while n.get("kind") in ("MaterializeTemporaryExpr", "CXXBindTemporaryExpr") and kids(n):
+            n = strip(kids(n)[0])
+        calls = []
+        while n.get("kind") == "CXXMemberCallExpr":
+            callee = kids(n)[0]
+            if callee.get("kind") != "MemberExpr":
+                return None
+            calls.append((callee.get("name"), kids(n)[1:]))
+            n = strip(kids(callee)[0])
+            while n.get("kind") in ("MaterializeTemporaryExpr", "CXXBindTemporaryExpr") and kids(n):
+                n = strip(kids(n)[0])
+        calls.reverse()
+        m = self.this_member(n)
+        if m is not None:
+            return m, calls
+        if n.get("kind") == "CXXThisExpr":
+            return "this", calls
+        return None
+
+    def is_parse_args(self, args):
+        return len(args) == 2 and self.ref(args[0], "iter") and self.ref(args[1], "end")
+
+    def zexp(self, n):
+        while n.get("kind") in ("ImplicitCastExpr", "ParenExpr", "ExprWithCleanups"):
+            n = kids(n)[0]
+        k = n.get("kind")
+        if k == "CXXStaticCastExpr" and "ptrdiff_t" in n.get("type", {}).get("qualType", ""):
+            inner = kids(n)[0]
+            if self.this_member(inner) == "max_content_length_":
+                return "RZMaxContent"
+            c = self.chain(inner)
+            if c and c[0] == "body_" and [x[0] for x in c[1]] == ["size"]:
+                return "RZBodySize"
+            raise Untranslatable("static_cast<ptrdiff_t> in receive")
+        if k == "IntegerLiteral":
+            return "(RZLit %d)" % int(n["value"])
+        if k == "DeclRefExpr":
+            name = n.get("referencedDecl", {}).get("name")
+            if name in ("rx_size", "content_length", "required"):
+                return {"rx_size": "RZRx", "content_length": "RZCl", "required": "RZReq"}[name]
+        if k == "BinaryOperator" and n.get("opcode") == "-":
+            a, b = kids(n)
+            return "(RZSub %s %s)" % (self.zexp(a), self.zexp(b))
+        if k == "CallExpr":
+            f = strip(kids(n)[0]); name = f.get("referencedDecl", {}).get("name"); args = kids(n)[1:]
+            if name == "distance" and self.is_parse_args(args):
+                return "RZDistance"
+        c = self.chain(n)
+        if c and c[0] == "request_" and [x[0] for x in c[1]] == ["content_length"]:
+            return "RZContentLength"
+        raise Untranslatable("ptrdiff expression in receive: " + str(k))
+
+    def rexp(self, n):
+        n = strip(n)
+        k = n.get("kind")
+        if k == "CXXBoolLiteralExpr":
+            return "(RConst %s)" % ("true" if n.get("value") else "false")
+        if k == "UnaryOperator" and n.get("opcode") == "!":
+            return "(RNot %s)" % self.rexp(kids(n)[0])
+        if k == "BinaryOperator" and n.get("opcode") in ("&&", "||"):
+            a, b = kids(n)
+            return "(%s %s %s)" % ("RAnd" if n["opcode"] == "&&" else "ROr", self.rexp(a), self.rexp(b))
+        if k == "DeclRefExpr" and n.get("referencedDecl", {}).get("name") == "request_parsed":
+            return "RParsed"
+        if k == "BinaryOperator" and n.get("opcode") in ("!=", ">") and \
+                ((self.ref(kids(n)[0], "iter") and self.ref(kids(n)[1], "end")) or (self.ref(kids(n)[0], "end") and self.ref(kids(n)[1], "iter"))):
+            if n["opcode"] == "!=" or (self.ref(kids(n)[0], "end") and self.ref(kids(n)[1], "iter")):
+                return "RMore"
+        if k == "BinaryOperator" and n.get("opcode") in (">", "<", "=="):
+            a, b = kids(n)
+            # body_.size() == static_cast<size_t>(request_.content_length())
+            ca = self.chain(a)
+            if n["opcode"] == "==" and ca and ca[0] == "body_" and [x[0] for x in ca[1]] == ["size"]:
+                sb = b
+                while sb.get("kind") in ("ImplicitCastExpr", "ParenExpr"):
+                    sb = kids(sb)[0]
+                if sb.get("kind") == "CXXStaticCastExpr" and "size_t" in sb.get("type", {}).get("qualType", ""):
+                    cb = self.chain(kids(sb)[0])
+                    if cb and cb[0] == "request_" and [x[0] for x in cb[1]] == ["content_length"]:
+                        return "RBodyIsContentLength"
+                raise Untranslatable("comparison of body_.size() in receive")
+            # (body_.size() + chunk_.data().size()) > max_content_length_
+            sa = strip(a)
+            if n["opcode"] == ">" and sa.get("kind") == "BinaryOperator" and sa.get("opcode") == "+" and self.this_member(b) == "max_content_length_":
+                x, y = [self.chain(t) for t in kids(sa)]
+                if x and y and x[0] == "body_" and [t[0] for t in x[1]] == ["size"] and y[0] == "chunk_" and [t[0] for t in y[1]] == ["data", "size"]:
+                    return "RSumOverLimit"
+                raise Untranslatable("sum of sizes in receive")
+            return "(RZCmp %s %s %s)" % ({">": "RGt", "<": "RLt", "==": "REq"}[n["opcode"]], self.zexp(a), self.zexp(b))
+        m = self.this_member(n)
+        if m in ("continue_sent_", "is_head_"):
+            return "(RFlag %d%%nat)" % R_FLAGS.index(m)
+        if m == "translate_head_":
+            return "RTranslateHead"
+        if m == "concatenate_chunks_":
+            return "RConcat"
+        c = self.chain(n)
+        if c:
+            obj, calls = c
+            names = [x[0] for x in calls]
+            if obj == "request_":
+                if names == ["valid"]:
+                    return "RReqValid"
+                if names == ["parse"] and self.is_parse_args(calls[0][1]):
+                    return "RReqParse"
+                if names == ["fail"]:
+                    return "RReqLineFail"
+                if names == ["headers", "fail"]:
+                    return "RReqHdrFail"
+                if len(names) == 1 and names[0] in REQ_QUERIES and not calls[0][1]:
+                    return "(RQuery rq_%s_src)" % names[0]
+                if names == ["headers", "find", "empty"]:
+                    nm = named_refs(n, LC_NAMES)
+                    if len(nm) == 1:
+                        return "(RFindEmpty %s)" % nm[0]
+            if obj == "chunk_":
+                if names == ["valid"]:
+                    return "RChunkValid"
+                if names == ["parse"] and self.is_parse_args(calls[0][1]):
+                    return "RChunkParse"
+                if names == ["fail"]:
+                    return "RChunkFail"
+                if names == ["is_last"]:
+                    return "RChunkIsLast"
+            raise Untranslatable("call %s.%s in receive" % (obj, ".".join(names)))
+        raise Untranslatable("expression in receive: " + str(k))
+
+    def seq(self, l):
+        l = [x for x in l if x != "RSkip"]
+        if not l:
+            return "RSkip"
+        out = l[-1]
+        for x in reversed(l[:-1]):
+            out = "(RSeq %s %s)" % (x, out)
+        return out
+
+    def switch(self, n):
+        """switch (request_.state()) { case E: S; break; ... default: S } -> nested ifs on the state of the request line"""
+        ks = kids(n)
+        c = self.chain(ks[0])
+        if not (c and c[0] == "request_" and [x[0] for x in c[1]] == ["state"]):
+            raise Untranslatable("switch in receive")
+        body = [x for x in ks if x.get("kind") == "CompoundStmt"][0]
+        arms, default, cur = [], None, None
+        for it in kids(body):
+            k = it.get("kind")
+            if k == "CaseStmt":
+                lab = strip(kids(it)[0]).get("referencedDecl", {}).get("name")
+                if lab not in self.line_states:
+                    raise Untranslatable("case label " + str(lab))
+                cur = [self.line_states[lab], [self.rstmt(kids(it)[-1])]]
+                arms.append(cur)
+            elif k == "DefaultStmt":
+                cur = [None, [self.rstmt(kids(it)[-1])]]
+                default = cur
+            elif k == "BreakStmt":
+                cur = None
+            else:
+                if cur is None:
+                    raise Untranslatable("statement between the cases of the switch")
+                cur[1].append(self.rstmt(it))
+        out = self.seq(default[1]) if default else "RSkip"
+        for st, body_ in reversed(arms):
+            out = "(RIf (RLineStateIs %d%%nat) %s %s)" % (st, self.seq(body_), out)
+        return out
+
+    def rstmt(self, n):
+        k = n.get("kind")
+        if k == "CompoundStmt":
+            return self.seq([self.rstmt(c) for c in kids(n)])
+        if k == "NullStmt":
+            return "RSkip"
+        if k == "ExprWithCleanups":
+            return self.rstmt(kids(n)[0])
+        if k == "IfStmt":
+            ks = kids(n)
+            els = ks[2] if len(ks) > 2 else None
+            return "(RIf %s %s %s)" % (self.rexp(ks[0]), self.rstmt(ks[1]), self.rstmt(els) if els is not None else "RSkip")
+        if k == "SwitchStmt":
+            return self.switch(n)
+        if k == "ReturnStmt":
+            v = strip(kids(n)[0])
+            name = v.get("referencedDecl", {}).get("name")
+            if v.get("kind") == "DeclRefExpr" and name in RX_VALUES:
+                return "(RReturn %s)" % RX_VALUES[name]
+            raise Untranslatable("return in receive")
+        if k == "DeclStmt":
+            vs = kids(n)
+            if len(vs) == 1 and vs[0].get("kind") == "VarDecl" and kids(vs[0]):
+                name, init = vs[0].get("name"), kids(vs[0])[0]
+                if name == "request_parsed":
+                    return "(RLetParsed %s)" % self.rexp(init)
+                if name == "rx_size":
+                    return "(RLetRx %s)" % self.zexp(init)
+                if name == "content_length":
+                    return "(RLetCl %s)" % self.zexp(init)
+                if name == "required":
+                    return "(RLetReq %s)" % self.zexp(init)
+                if name == "next":
+                    i = strip(init)
+                    if i.get("kind") == "BinaryOperator" and i.get("opcode") == "+" and self.ref(kids(i)[0], "iter") and self.ref(kids(i)[1], "required"):
+                        return "RLetNext"
+            raise Untranslatable("declaration in receive")
+        if k == "BinaryOperator" and n.get("opcode") == "=":
+            lhs, rhs = kids(n)
+            if self.ref(lhs, "iter") and self.ref(rhs, "next"):
+                return "RJumpNext"
+            if self.ref(lhs, "iter") and self.ref(rhs, "end"):
+                return "RJumpEnd"
+            m = self.this_member(lhs)
+            if m == "response_code_":
+                r_ = strip(rhs)
+                name = r_.get("referencedDecl", {}).get("name")
+                if r_.get("kind") == "DeclRefExpr" and r_.get("referencedDecl", {}).get("kind") == "EnumConstantDecl":
+                    return "(RSetCode code_%s)" % name
+            if m in ("continue_sent_", "is_head_"):
+                return "(RSetFlag %d%%nat %s)" % (R_FLAGS.index(m), self.rexp(rhs))
+            raise Untranslatable("assignment in receive")
+        if k == "CXXMemberCallExpr":
+            c = self.chain(n)
+            if c:
+                obj, calls = c
+                names = [x[0] for x in calls]
+                if obj == "this" and names == ["clear"]:
+                    return "RClear"
+                if obj == "request_" and names == ["clear"]:
+                    return "RReqClear"
+                if obj == "chunk_" and names == ["clear"]:
+                    return "RChunkClear"
+                if obj == "body_" and names == ["clear"]:
+                    return "RBodyClear"
+                if obj == "request_" and names == ["set_method"]:
+                    ms = named_refs(n, METHODS)
+                    if len(ms) == 1:
+                        return "(RSetMethod %s)" % ms[0]
+                if obj == "body_" and names == ["insert"] and len(calls[0][1]) == 3:
+                    pos, a, b = calls[0][1]
+                    cp = [self.chain(m) for m in walk(pos)]
+                    at_end = any(x and x[0] == "body_" and [t[0] for t in x[1]] == ["end"] for x in cp)
+                    if at_end and self.ref(a, "iter") and self.ref(b, "next"):
+                        return "RInsertToNext"
+                    if at_end and self.ref(a, "iter") and self.ref(b, "end"):
+                        return "RInsertRest"
+                    ca = [self.chain(m) for m in walk(a)]; cb = [self.chain(m) for m in walk(b)]
+                    if at_end and any(x and x[0] == "chunk_" and [t[0] for t in x[1]] == ["data", "begin"] for x in ca) \
+                            and any(x and x[0] == "chunk_" and [t[0] for t in x[1]] == ["data", "end"] for x in cb):
+                        return "RAppendChunk"
+            raise Untranslatable("member call statement in receive")
+        raise Untranslatable("statement in receive: " + str(k))
+
+
+def translate_receiver():
+    inst = "via::http::request_receiver<std::string, 8190, 8, 100, 65534, 1024, 8, false>"
+    with tempfile.TemporaryDirectory() as d:
+        tu = os.path.join(d, "tu.cpp")
+        with open(tu, "w") as f:
+            f.write('#include "via/http/request.hpp"\n')
+            f.write("template class %s;\n" % inst)
+            f.write("template via::http::Rx %s::receive<const char*>(const char*&, const char*);\n" % inst)
+        p = subprocess.run(["clang++", "-std=c++17", "-I" + os.path.join(REPO, "include"), "-fsyntax-only",
+                            "-Xclang", "-ast-dump=json", "-Xclang", "-ast-dump-filter=request", tu],
+                           stdout=subprocess.PIPE, stderr=subprocess.PIPE, text=True)
+        if p.returncode != 0:
+            raise Untranslatable("clang: " + p.stderr[-400:])
+        docs = load_docs(p.stdout)
+    states = None
+    recv = clr = None
+    accs = {}
+    for dd in docs:
+        for n in walk(dd):
+            if n.get("kind") == "ClassTemplateSpecializationDecl" and n.get("name") == "request_line" and states is None:
+                en = [e for e in kids(n) if e.get("kind") == "EnumDecl" and e.get("name") == "Request"]
+                if en:
+                    states = {c["name"]: i for i, c in enumerate(x for x in kids(en[0]) if x.get("kind") == "EnumConstantDecl")}
+            if n.get("kind") == "ClassTemplateSpecializationDecl" and n.get("name") == "request_receiver":
+                for m in walk(n):
+                    if m.get("kind") == "CXXMethodDecl" and any(c.get("kind") == "CompoundStmt" for c in kids(m)):
+                        if m.get("name") == "receive" and any(c.get("kind") == "TemplateArgument" for c in (m.get("inner") or [])) and recv is None:
+                            recv = m
+                        if m.get("name") == "clear" and clr is None:
+                            clr = m
+    if states is None or recv is None or clr is None:
+        raise Untranslatable("request_receiver: receive / clear / the states of the request line not found")
+    tr = RTr(states)
+    body = lambda m: [c for c in kids(m) if c.get("kind") == "CompoundStmt"][0]
+    return tr.rstmt(body(recv)), tr.rstmt(body(clr))
+
+
 CLASSES = [
     dict(name="rl", cls="request_line", header="via/http/request.hpp", enum="Request", state="state_", param="c",
          strs=["method_", "uri_"], nums=["ws_count_", "major_version_", "minor_version_", "valid_", "fail_"],
-         limits=["MAX_URI_LENGTH", "MAX_METHOD_LENGTH", "MAX_WHITESPACE_CHARS"], accessors=["valid"],
+         limits=["MAX_URI_LENGTH", "MAX_METHOD_LENGTH", "MAX_WHITESPACE_CHARS"], accessors=["valid", "fail"],
          inst={"lax": "via::http::request_line<8190, 8, 8, false>", "strict": "via::http::request_line<8190, 8, 8, true>"}),
     dict(name="sl", cls="response_line", header="via/http/response.hpp", enum="Response", state="state_", param="c",
          strs=["reason_phrase_"], nums=["ws_count_", "major_version_", "minor_version_", "status_", "status_read_", "valid_", "fail_"],
-         limits=["MAX_STATUS_NUMBER", "MAX_REASON_LENGTH", "MAX_WHITESPACE_CHARS"], accessors=["valid"],
+         limits=["MAX_STATUS_NUMBER", "MAX_REASON_LENGTH", "MAX_WHITESPACE_CHARS"], accessors=["valid", "fail"],
          inst={"lax": "via::http::response_line<65534, 65534, 254, false>", "strict": "via::http::response_line<65534, 65534, 254, true>"}),
     dict(name="fl", cls="field_line", header="via/http/headers.hpp", enum="Header", state="state_", param="c",
          strs=["name_", "value_"], nums=["length_", "ws_count_", "fail_"],
@@ -1202,7 +1524,7 @@ CLASSES = [
          inst={"lax": "via::http::field_line<1024, 8, false>", "strict": "via::http::field_line<1024, 8, true>"}),
     dict(name="ck", cls="chunk_header", header="via/http/chunk.hpp", enum="Chunk", state="state_", param="c",
          strs=["hex_size_", "extension_"], nums=["length_", "ws_count_", "size_", "size_read_", "max_chunk_size_", "valid_", "fail_"],
-         limits=["MAX_LINE_LENGTH", "MAX_WHITESPACE_CHARS"], accessors=["valid", "size", "is_last"],
+         limits=["MAX_LINE_LENGTH", "MAX_WHITESPACE_CHARS"], accessors=["valid", "size", "is_last", "fail"],
          inst={"lax": "via::http::chunk_header<1024, 8, false>", "strict": "via::http::chunk_header<1024, 8, true>"}),
 ]
 
@@ -1287,7 +1609,7 @@ def translate_class(cfg):
 
 def main(dest):
     lines = ["(* Gen_Parse.v — GENERATED by translate/parse.py from the headers under include/via/http: do not edit. *)",
-             "From Via Require Import M_Char M_Parse M_Imp M_Loop M_Hdr M_Msg M_Chunk M_Query.", "From Coq Require Import List NArith.", "Import ListNotations.", "Local Open Scope N_scope.", ""]
+             "From Via Require Import M_Char M_Parse M_Imp M_Loop M_Hdr M_Msg M_Chunk M_Query M_Recv.", "From Coq Require Import List NArith.", "Import ListNotations.", "Local Open Scope N_scope.", ""]
     for cfg in CLASSES:
         enum_index, progs = translate_class(cfg)
         names = sorted(enum_index, key=enum_index.get)
@@ -1313,6 +1635,8 @@ def main(dest):
     lines.append("Definition hd_clear_src : hstmt :=\n  %s." % hd_clear_t)
     lines.append("(* message_headers::valid() *)")
     lines.append("Definition hd_valid_src : hexp := %s." % translate_headers_valid())
+    lines.append("(* message_headers::fail() *)")
+    lines.append("Definition hd_fail_src : hexp := %s." % translate_headers_valid("fail"))
     lines.append("(* rx_request::parse(iter, end), rx_response::parse(iter, end) *)")
     rq_p, rq_c = translate_message("via/http/request.hpp", "rx_request", "via::http::rx_request<8190, 8, 100, 65534, 1024, 8, false>")
     rs_p, rs_c = translate_message("via/http/response.hpp", "rx_response", "via::http::rx_response<65534, 65534, 100, 65534, 1024, 8, false>")
@@ -1340,6 +1664,12 @@ def main(dest):
     lines.append("Definition rc_parse_src_strict : cstmt :=\n  %s." % ch["strict"])
     lines.append("(* rx_chunk::clear() *)")
     lines.append("Definition rc_clear_src : cstmt :=\n  %s." % ch["clear"])
+    lines.append("(* rx_chunk::fail() *)")
+    lines.append("Definition rc_fail_src : cexp := %s." % ch["fail"])
+    rv_recv, rv_clear = translate_receiver()
+    lines.append("(* request_receiver::receive(iter, end) and clear() *)")
+    lines.append("Definition rv_receive_src : rstmt :=\n  %s." % rv_recv)
+    lines.append("Definition rv_clear_src : rstmt :=\n  %s." % rv_clear)
     txt = "\n".join(lines) + "\n"
     # unchanged output keeps its time stamp: make then has nothing to rebuild
     if not os.path.exists(dest) or open(dest).read() != txt:
